@@ -7,6 +7,7 @@
 #include "time_manager.h"
 #include "transposition_table.h"
 #include "types.h"
+#include "verif_hooks.h"
 
 #include <atomic>
 #include <chrono>
@@ -93,7 +94,11 @@ class Search
     Limits limits;
 
     int64_t check_limits_counter;
+#ifdef CHESSPLUSPLUS_VERIF
+    verif::HookedAtomicBool stop_search;
+#else
     std::atomic<bool> stop_search;
+#endif
 
     Duration _search_time;
     Depth _search_depth;
